@@ -12,7 +12,9 @@ cd $W
 git checkout -q --detach $(git -C /repo rev-parse HEAD) 2>/dev/null
 for d in /verif/seeded/C*/ /verif/seeded/redteam-[0-9]*/; do
   idx=$((idx + 1)); [ $((idx % N)) -eq $K ] || continue
-  id=$(basename $d); p=$(python3 -c "import json;print(json.load(open('$d/meta.json'))['property'])")
+  id=$(basename $d)
+  if [ -n "$RECHECK_SKIP" ] && grep -qx "$id" "$RECHECK_SKIP"; then continue; fi   # already done in an earlier, interrupted run
+  p=$(python3 -c "import json;print(json.load(open('$d/meta.json'))['property'])")
   git checkout -q -- . ; git clean -fdq tests 2>/dev/null
   git apply $d/patch.diff 2>/dev/null || { echo "[$id] patch does not apply"; continue; }
   out=$(/verif/tools/mutant_try.sh $W $p 2>&1 | grep -E "^check|VIOLATION|harness problem")
